@@ -38,6 +38,9 @@ type NetPlan struct {
 	LatMode string        `json:"lat"` // zero | fixed | random | trickle
 	LatMax  time.Duration `json:"lat_max"`
 	Seed    uint64        `json:"seed"`
+	// JoinMsgs: a read may carry the end of one peer message and the beginning of the next
+	// (default: a read never spans two messages)
+	JoinMsgs bool `json:"join_msgs,omitempty"`
 }
 
 // Faults is the fault plan of one transport.
@@ -458,7 +461,7 @@ func (t *T) cut(avail, n int) int {
 	}
 	// message boundary: never span two messages
 	first := t.segAt(t.delivered)
-	if first != nil && first.msg != 0 {
+	if first != nil && first.msg != 0 && !t.Plan.JoinMsgs {
 		end := first.end
 		for i := range t.segs {
 			s := &t.segs[i]
